@@ -110,7 +110,7 @@ class FunctionInfo:
                     node, inl = inlined_function(prog, self)
                 except RecursionError:  # pragma: no cover
                     node, inl = self.node, []
-            if prog is not None and any(isinstance(x, ast.For) and isinstance(x.iter, (ast.Tuple, ast.List)) for x in ast.walk(node)):
+            if prog is not None and any(isinstance(x, ast.For) and isinstance(x.iter, (ast.Tuple, ast.List, ast.Name)) for x in ast.walk(node)):
                 import copy as _copy
 
                 from .inline import unrolled
